@@ -137,15 +137,22 @@ def run_ftp_sessions(recorder, specs):
     return results
 
 
-class StubVisits(object):
-    '''url_table stand-in for dedup: knows (url, digest) pairs -> record id.'''
+class Visits(object):
+    '''The crawler's own URL table (in memory) as the dedup source, as --warc-dedup fills it from a CDX file: the
+    harness adds (url, record id, payload digest) visits and logs the recorder's queries.'''
     def __init__(self):
+        from wpull.database.sqltable import SQLiteURLTable
+        self.table = SQLiteURLTable(':memory:')
         self.visits = {}
         self.queries = []
 
+    def add(self, url, digest, record_id):
+        self.visits[(url, digest)] = record_id
+        self.table.add_visits([(url, record_id, digest)])
+
     def get_revisit_id(self, url, payload_digest):
         self.queries.append((url, payload_digest))
-        return self.visits.get((url, payload_digest))
+        return self.table.get_revisit_id(url, payload_digest)
 
 
 def run_case(case, keep_dir=None):
@@ -170,7 +177,7 @@ def run_case(case, keep_dir=None):
         elif (cfg['appending'] or rerun) and len(seq) > 1:
             h = len(seq) // 2
             rounds = [seq[:h], seq[h:]]
-        visits = StubVisits() if cfg['dedup'] else None
+        visits = Visits() if cfg['dedup'] else None
         serial = 0
         for rnd_index, rnd in enumerate(rounds):
             params = WARCRecorderParams(
@@ -205,7 +212,11 @@ def run_case(case, keep_dir=None):
                     body_start = refwarc.http_payload_offset(r['wire'])
                     msg = r['wire'][:len(r['wire']) - r['surplus']]
                     digest = refwarc.b32sha1(msg[body_start:])[5:]
-                    visits.visits[(url, digest)] = '<urn:uuid:00000000-0000-0000-0000-%012d>' % serial
+                    if i % 4 == 3:
+                        # the earlier crawl archived this URL with another payload (the document has changed since):
+                        # the response is not a duplicate and must be recorded whole
+                        digest = refwarc.b32sha1(msg[body_start:] + b'(earlier version)')[5:]
+                    visits.add(url, digest, '<urn:uuid:00000000-0000-0000-0000-%012d>' % serial)
 
             client_kwargs = None
             if cfg.get('ignore_length'):
@@ -229,7 +240,8 @@ def run_case(case, keep_dir=None):
                     'response_bytes': r['wire'][:len(r['wire']) - r['surplus']],
                     'error': out.get('error'), 'classes': r['classes'], 'method': r['method'],
                     'round': rnd_index,
-                    'expect_revisit': bool(visits is not None and i % 2 == 1),
+                    'expect_revisit': bool(visits is not None and i % 4 == 1),
+                    'changed_since_archived': bool(visits is not None and i % 4 == 3),
                 })
         for path in sorted(glob.glob(prefix + '*')):
             with open(path, 'rb') as f:
